@@ -831,6 +831,126 @@ Proof.
   destruct (cur s); cbn [length]; lia.
 Qed.
 
+(* ================================================================== the playlist text, read line by line *)
+Lemma split_on_acc_line l : forall rest cur, no_lf l = true ->
+  split_on_acc 10 (l ++ 10 :: rest) cur = (rev cur ++ l) :: split_on_acc 10 rest [].
+Proof.
+  induction l as [|x l IH]; intros rest cur H.
+  - cbn. rewrite app_nil_r. reflexivity.
+  - unfold no_lf in H. cbn [forallb] in H. apply andb_true_iff in H as [H1 H2]. fold (no_lf l) in H2.
+    cbn [app split_on_acc]. destruct (x =? 10) eqn:E; [discriminate|].
+    rewrite IH by exact H2. cbn [rev]. rewrite <- app_assoc. reflexivity.
+Qed.
+
+Lemma split_unlines ls : (forall l, In l ls -> no_lf l = true) -> split_on 10 (unlines ls) = ls ++ [[]].
+Proof.
+  unfold split_on. induction ls as [|l ls IH]; intros H; [reflexivity|].
+  unfold unlines in *. cbn [flat_map]. rewrite <- app_assoc. cbn [app].
+  rewrite split_on_acc_line by (apply H; left; reflexivity). cbn [rev app]. f_equal.
+  apply IH. intros l' Hl. apply H. right. exact Hl.
+Qed.
+
+Lemma render_entry_lines e : render_entry e = unlines (entry_lines e).
+Proof.
+  unfold render_entry, entry_lines, unlines, tok_suffix.
+  destruct (e_disc e); destruct (e_tok e); cbn [app flat_map]; repeat rewrite <- app_assoc; cbn [app];
+    rewrite ?app_nil_r; reflexivity.
+Qed.
+
+Lemma unlines_app a b : unlines (a ++ b) = unlines a ++ unlines b.
+Proof. unfold unlines. apply flat_map_app. Qed.
+
+Lemma render_lines v : render v = unlines (view_lines v).
+Proof.
+  unfold render, view_lines. rewrite unlines_app.
+  assert (E : flat_map render_entry (v_entries v) = unlines (flat_map entry_lines (v_entries v))).
+  { induction (v_entries v) as [|e l IH]; [reflexivity|]. cbn [flat_map]. rewrite unlines_app, render_entry_lines, IH. reflexivity. }
+  rewrite E. unfold unlines. cbn [flat_map]. rewrite <- !app_assoc. reflexivity.
+Qed.
+
+Definition digit_or_minus (b : Z) : bool := negb (b =? 10).
+Lemma dec_fuel_no_lf fuel : forall n acc, no_lf acc = true -> no_lf (dec_fuel fuel n acc) = true.
+Proof.
+  induction fuel as [|k IH]; intros n acc H; [exact H|]. cbn [dec_fuel].
+  assert (H' : no_lf ((48 + n mod 10) :: acc) = true).
+  { unfold no_lf in *. cbn [forallb]. rewrite H. pose proof (Z.mod_pos_bound n 10 ltac:(lia)).
+    destruct (48 + n mod 10 =? 10) eqn:E; [lia | reflexivity]. }
+  destruct (n / 10 =? 0); [exact H' | apply IH; exact H'].
+Qed.
+Lemma dec_no_lf n : no_lf (dec n) = true.
+Proof.
+  unfold dec. destruct (n <? 0); [|apply dec_fuel_no_lf; reflexivity].
+  change (no_lf (45 :: dec_fuel 60 (- n) [])) with (negb (45 =? 10) && no_lf (dec_fuel 60 (- n) [])).
+  rewrite dec_fuel_no_lf; reflexivity.
+Qed.
+Lemma no_lf_app a b : no_lf (a ++ b) = no_lf a && no_lf b.
+Proof. unfold no_lf. apply forallb_app. Qed.
+Lemma dec3_no_lf n : no_lf (dec3 n) = true.
+Proof.
+  unfold dec3, no_lf. cbn [forallb].
+  pose proof (Z.mod_pos_bound (n / 100) 10 ltac:(lia)). pose proof (Z.mod_pos_bound (n / 10) 10 ltac:(lia)).
+  pose proof (Z.mod_pos_bound n 10 ltac:(lia)).
+  destruct (48 + (n / 100) mod 10 =? 10) eqn:E1; [lia|]. destruct (48 + (n / 10) mod 10 =? 10) eqn:E2; [lia|].
+  destruct (48 + n mod 10 =? 10) eqn:E3; [lia|]. reflexivity.
+Qed.
+Lemma fmt_millis_no_lf n : no_lf (fmt_millis n) = true.
+Proof. unfold fmt_millis. rewrite !no_lf_app, dec_no_lf, dec3_no_lf. reflexivity. Qed.
+
+Lemma seg_uri_no_lf c n : no_lf (c_path c) = true -> no_lf (seg_uri c n) = true.
+Proof. intros H. unfold seg_uri. rewrite !no_lf_app, H, dec_no_lf. reflexivity. Qed.
+Lemma tok_suffix_no_lf t : no_lf t = true -> no_lf (tok_suffix t) = true.
+Proof. intros H. unfold tok_suffix. destruct t; [reflexivity|]. rewrite no_lf_app, H. reflexivity. Qed.
+
+Lemma seg_uri_is_uri c n t : is_uri_line (seg_uri c n ++ t) = true.
+Proof. reflexivity. Qed.
+
+(* every URI line of the served text is the segment's URI followed by "?token=" and the caller's token (nothing when
+   the token is empty), byte for byte, for every token and stream path without a line feed; and these are all the
+   URI lines, in the order of the listed segments *)
+Lemma uri_lines_entries c tok segs : no_lf (c_path c) = true -> no_lf tok = true ->
+  let ls := flat_map entry_lines (map (entry_of c tok) segs) in
+  (forall l, In l ls -> no_lf l = true) /\ filter is_uri_line ls = map (fun g => uri_line c tok (s_seq g)) segs.
+Proof.
+  intros Hp Ht. induction segs as [|g segs [IH1 IH2]]; [split; [intros l []|reflexivity]|].
+  cbn zeta. cbn [map flat_map].
+  assert (U : no_lf (e_uri (entry_of c tok g) ++ tok_suffix (e_tok (entry_of c tok g))) = true).
+  { cbn [entry_of e_uri e_tok]. rewrite no_lf_app, seg_uri_no_lf, tok_suffix_no_lf by assumption. reflexivity. }
+  assert (I : no_lf (S_INF ++ fmt_millis (e_ms (entry_of c tok g)) ++ [44]) = true).
+  { rewrite !no_lf_app, fmt_millis_no_lf. reflexivity. }
+  split.
+  - intros l Hl. apply in_app_or in Hl. destruct Hl as [Hl|Hl]; [|apply IH1; exact Hl].
+    unfold entry_lines in Hl. apply in_app_or in Hl. destruct Hl as [Hl|[<-|[<-|[]]]]; try assumption.
+    destruct (e_disc (entry_of c tok g)); [destruct Hl as [<-|[]]; reflexivity | destruct Hl].
+  - rewrite filter_app, IH2. f_equal. unfold entry_lines. rewrite filter_app.
+    replace (filter is_uri_line (if e_disc (entry_of c tok g) then [L_DISC] else [])) with (@nil bytes)
+      by (destruct (e_disc (entry_of c tok g)); reflexivity).
+    cbn [app filter]. replace (is_uri_line (S_INF ++ fmt_millis (e_ms (entry_of c tok g)) ++ [44])) with false by reflexivity.
+    cbn [entry_of e_uri e_tok]. rewrite seg_uri_is_uri. reflexivity.
+Qed.
+
+Theorem playlist_uri_verbatim c tok s v : no_lf (c_path c) = true -> no_lf tok = true ->
+  m3u8 c tok s = Some v ->
+  uri_lines (render v) = map (uri_line c tok) (live_seqs s).
+Proof.
+  intros Hp Ht Hm. unfold m3u8 in Hm. destruct (pl s) as [|g0 rest] eqn:Hpl; [discriminate|].
+  destruct (length (g0 :: rest) <? WINDOW)%nat; [discriminate|]. injection Hm as <-.
+  unfold uri_lines. rewrite render_lines, split_unlines.
+  - unfold view_lines. cbn [v_target v_mseq v_entries].
+    change (entry_of c tok g0 :: map (entry_of c tok) rest) with (map (entry_of c tok) (g0 :: rest)).
+    rewrite !filter_app.
+    destruct (uri_lines_entries c tok (g0 :: rest) Hp Ht) as [_ E]. cbn zeta in E. rewrite E.
+    unfold live_seqs. rewrite Hpl, map_map.
+    assert (H0 : filter is_uri_line [L_EXTM3U; L_VERSION; L_CACHE; L_TARGET ++ dec (max_dur (g0 :: rest) / TICKS + 1);
+                                       L_MSEQ ++ dec (s_seq g0); []] = []) by reflexivity.
+    rewrite H0. cbn [app filter is_uri_line]. rewrite app_nil_r. reflexivity.
+  - intros l Hl. unfold view_lines in Hl. cbn [v_target v_mseq v_entries] in Hl.
+    change (entry_of c tok g0 :: map (entry_of c tok) rest) with (map (entry_of c tok) (g0 :: rest)) in Hl.
+    apply in_app_or in Hl.
+    destruct Hl as [Hl|Hl].
+    + destruct Hl as [<-|[<-|[<-|[<-|[<-|[<-|[]]]]]]]; try reflexivity; rewrite no_lf_app, dec_no_lf; reflexivity.
+    + destruct (uri_lines_entries c tok (g0 :: rest) Hp Ht) as [N _]. apply N. exact Hl.
+Qed.
+
 Lemma ok_step_model c dtok r o : Inv c (step_st c (r_st r) o) ->
   ok_step c dtok false (step c dtok r o) (snd (step c dtok r o)) = true.
 Proof.
@@ -845,7 +965,9 @@ Proof.
   repeat (apply andb_true_iff; split).
   - rewrite F1. destruct (m3u8 c dtok s') as [v|] eqn:Hm; [|reflexivity].
     rewrite bytes_eqb_refl, view_eqb_refl, F2.
-    destruct (view_ok_model c dtok s' v I1 (Inv2_durs_ok _ I2) Hm) as [V _]. rewrite V. reflexivity.
+    destruct (view_ok_model c dtok s' v I1 (Inv2_durs_ok _ I2) Hm) as [V _]. rewrite V. cbn [andb].
+    destruct (no_lf dtok) eqn:Nt; [|reflexivity]. destruct (no_lf (c_path c)) eqn:Np; [|reflexivity]. cbn [negb orb].
+    rewrite (playlist_uri_verbatim c dtok s' v Np Nt Hm). apply list_eqb_refl. apply bytes_eqb_refl.
   - rewrite F2. unfold live_seqs. rewrite map_length. apply Nat.leb_le. unfold WINDOW. apply (i_len _ I1).
   - rewrite F3. apply Nat.leb_le. unfold WINDOW. pose proof (dir_seqs_length c (r_left (fst (step c dtok r o))) s' I1). lia.
   - rewrite F4. apply forallb_forall. intros x Hx. apply in_map_iff in Hx as (g & <- & _). reflexivity.
@@ -1398,4 +1520,22 @@ Proof.
       { eapply NoDup_map_inj; [exact N2 | | | exact F2]; apply in_or_app; left; assumption. }
       subst g0. apply overlay_firstn.
     + exfalso. pose proof (find_none _ _ Ef g Hin) as K. cbn in K. rewrite Z.eqb_refl in K. discriminate.
+Qed.
+
+(* playlist -> fetch round trip in every reachable state: the URI lines of the served text are, byte for byte,
+   "/streams" path "/" number ".ts" followed by "?token=" token (nothing for the empty token), one per listed
+   segment in order, for EVERY token and stream path without a line feed ('%', '#', '?', '&', '=', blanks, any other
+   byte); and every number so named resolves through Segment to the frames of exactly that listed segment *)
+Theorem playlist_uri_roundtrip c ops tok v :
+  forallb op_wf ops = true -> no_lf (c_path c) = true -> no_lf tok = true ->
+  let s := steps c (init c) ops in
+  m3u8 c tok s = Some v ->
+  uri_lines (render v) = map (fun g => seg_uri c (s_seq g) ++ tok_suffix tok) (pl s) /\
+  forall g, In g (pl s) ->
+    fetch c (s_seq g) s = Some (if c_mem c && negb (c_copy c) then RAlias (s_buf g) (s_frames g) else RCopy (s_frames g)).
+Proof.
+  intros Hw Hp Ht s Hm. pose proof (Inv_steps ops c (init c) Hw (Inv_init c)) as HI. fold s in HI.
+  split.
+  - rewrite (playlist_uri_verbatim c tok s v Hp Ht Hm). unfold live_seqs. rewrite map_map. reflexivity.
+  - intros g Hg. unfold fetch. rewrite (find_seg_consecutive _ _ _ (i_cons _ (inv1 _ _ HI)) Hg). reflexivity.
 Qed.
